@@ -128,8 +128,11 @@ DayFracOf(val1, val2, factor, divisor) ==
 Mants == Pow2(P - 1)..(Pow2(P) - 1)
 Floats == {<<0, 0>>} \cup {NormD(<<sg * m, e>>) : sg \in {-1, 1}, m \in Mants, e \in EMin..EMax}
 Cases == {<<"sum", None>>} \cup {<<"mul", f>> : f \in Factors} \cup {<<"div", d>> : d \in Divisors}
-Init == st \in [a : Floats, b : Floats, c : Cases]
-Next == UNCHANGED st
+\* one initial state per val1 (so that TLC's workers share the pairs); its
+\* successors are all val2 and all cases
+Start == <<"sum", None>>
+Init == st \in [a : Floats, b : {<<0, 0>>}, c : {Start}, lvl : {0}]
+Next == st.lvl = 0 /\ st' \in [a : {st.a}, b : Floats, c : Cases, lvl : {1}]
 Spec == Init /\ [][Next]_st
 
 Result == DayFracOf(st.a, st.b, IF st.c[1] = "mul" THEN st.c[2] ELSE None,
